@@ -50,6 +50,7 @@ struct Link {
   bool half_ok = false;
   std::string vendor; std::vector<std::string> comments;
   int ref_err = 0;                          // first negative return of the packet-level reference decode
+  bool ref_reject = false;                  // the packet-level decoder refused what the encoder had just produced (see get_link)
   bool ref_crash = false;                   // the reference decode crashed or hung in the probe process (see get_link)
 };
 
@@ -62,7 +63,7 @@ void craft_link(Link &l);
 // Corpus production runs library code too (the reference decode). It is done in a short-lived probe process first; when that dies the link is
 // marked, generators stop using it, the run at hand is replaced by a minimal plan naming just this link (main.cpp), and inside an execution
 // (g_in_exec) the decode is repeated unguarded so that the failure happens inside a run, where it is attributed, minimised and replayed.
-extern bool g_in_exec; extern bool g_ref_crash_seen; extern Recipe g_ref_crash_recipe;
+extern bool g_in_exec; extern bool g_ref_crash_seen; extern Recipe g_ref_crash_recipe; extern std::string g_exec_prop;
 std::shared_ptr<Link> get_link(const Recipe &r);   // cached per process
 void ensure_half(Link &l);
 // decode a packet list through the packet-level API; returns per-channel pcm and per-packet chunk sizes.
